@@ -5,7 +5,7 @@ otherwise 10 / decimal float), agree with each other, and are tested in an order
 with the std formatter whose inverse the value parser uses (u64/f64: to_string <-> str::parse; enum: to_str <-> from_str).
 Does NOT decide exactness, rounding or overflow behaviour of the numeric conversions: these are properties of the std parsers
 (u64::from_str_radix, f64::from_str, `as f64`) for all texts and are outside a static argument."""
-import json, os
+import json, os, re
 from ir import Program, callee_of, callee_generic
 from flow import call_matches
 from pairing import calls
@@ -43,10 +43,8 @@ def prefix_chain(fn):
         if n.get('k') == 'if' and any(x.get('k') == 'bin' and x.get('op') == '==' and isinstance(x.get('r'), dict) and x['r'].get('v') == '0' for x in walk(n.get('c'))):
             top = n
             break
-    if top is None:
-        return None
     pos = 0
-    for arm in arms(top):
+    for arm in (arms(top) if top is not None else []):
         if arm['k'] == 'else':
             rad = [x for x in walk(arm['t']) if x.get('k') == 'call' and str(x.get('f', {}).get('v', '')).endswith('from_str_radix')]
             if rad and rad[0]['args'][1].get('k') == 'int':
@@ -69,7 +67,109 @@ def prefix_chain(fn):
             r = own[0]['args'][1]['v'] if own and own[0]['args'][1].get('k') == 'int' else None
             chain.append((pre, r, pos))
             pos += 1
-    return {'chain': chain, 'zero_pos': zero_first, 'default_radix': default_radix, 'default_parse': default_parse}
+    return {'chain': chain, 'zero_pos': zero_first, 'default_radix': default_radix, 'default_parse': default_parse, 'order': order}
+
+
+def _const_of(b, o):
+    from flow import const_val, is_local_op, origins
+    if not is_local_op(o):
+        return const_val(o)
+    vals = {str(const_val(org[1])) for org in origins(b, o) if org[0] == 'const'}
+    oth = [org for org in origins(b, o) if org[0] != 'const']
+    return vals.pop() if len(vals) == 1 and not oth else None
+
+
+def mir_radix_table(P, b):
+    """{prefix: set of radix constants} from the MIR of b (with its closures): for every `text.strip_prefix(<const>)` the radix constants
+    that reach a from_str_radix call on the way that starts at the Some edge of that test and ends at the next prefix test -
+    (a) a from_str_radix call with a constant radix inside that region, (b) a constant stored inside that region into a local that a
+    later from_str_radix call reads its radix from (`(digits, 16)` ... `from_str_radix(digits, radix)`), (c) a from_str_radix call with a
+    constant radix inside a closure that is applied to the test's result (`strip_prefix(p).and_then(|d| from_str_radix(d, 16).ok())`).
+    Also returns the order facts: positions of the tests and of the `== "0"` comparison."""
+    from flow import const_val, is_local_op, origins, source_locals, forward_taint
+    tests = []
+    for pos, t in b.iter_calls():
+        if call_matches(t, r'str>::strip_prefix$') and len(t['args']) > 1:
+            c = _const_of(b, t['args'][1])
+            if c is not None:
+                tests.append((pos, t, c.strip('"').strip("'")))
+    test_pos = {pos for pos, t, c in tests}
+    conv = [(pos, t) for pos, t in b.iter_calls() if call_matches(t, r'from_str_radix$') and len(t['args']) > 1]
+    table = {}
+    for pos, t, pre in tests:
+        rad = set()
+        # Some edge of the test: the switch on the discriminant of the result (directly or after moves)
+        tl = forward_taint(b, {t['dst']['l']}, through_refs=False)
+        # Option::filter / inspect keep the payload: `strip_prefix('0').filter(|d| all digits)` is still "the text had this prefix"
+        grew = True
+        while grew:
+            grew = False
+            for q, t2 in b.iter_calls():
+                if call_matches(t2, r'Option::<T>::(filter|inspect|take_if)$') and t2['args'] and is_local_op(t2['args'][0]) and t2['args'][0]['l'] in tl and t2['dst']['l'] not in tl:
+                    tl |= forward_taint(b, {t2['dst']['l']}, through_refs=False)
+                    grew = True
+        some_t = None
+        for q, st in b.iter_stmts():
+            if st['k'] == 'assign' and st['rv']['k'] == 'discr' and st['rv']['pl']['l'] in tl and not st['rv']['pl']['p']:
+                sw = b.blocks[q[0]]['term']
+                if sw['k'] == 'switch':
+                    d = dict(sw['ts'])
+                    some_t = d.get('1', sw['else'] if '0' in d else None)
+        if some_t is not None:
+            region = b.reach_from((some_t, 0), include_start=True, avoid=test_pos)
+            for cp, ct in conv:
+                if cp not in region:
+                    continue
+                c = _const_of(b, ct['args'][1])
+                if c is not None:
+                    rad.add(c)
+                else:
+                    want = source_locals(b, ct['args'][1])
+                    for q, st in b.iter_stmts():
+                        if q in region and st['k'] == 'assign' and st['dst']['l'] in want:
+                            if st['rv']['k'] == 'use' and not is_local_op(st['rv']['o']) and 'u32' in str(const_val(st['rv']['o'])):
+                                rad.add(str(const_val(st['rv']['o'])))
+                            if st['rv']['k'] == 'agg':
+                                for o in st['rv']['ops']:
+                                    if not is_local_op(o) and 'u32' in str(const_val(o)):
+                                        rad.add(str(const_val(o)))
+        # (c) closures applied to the result
+        for q, t2 in b.iter_calls():
+            if call_matches(t2, r'Option::<T>::(and_then|map|map_or|map_or_else|is_some_and|filter)$') and t2['args'] and is_local_op(t2['args'][0]) and t2['args'][0]['l'] in tl:
+                for a in t2['args'][1:]:
+                    for org in origins(b, a) if is_local_op(a) else []:
+                        if org[0] not in ('param', 'const', 'place') and org[1].get('k') == 'assign' and org[1]['rv']['k'] == 'agg' and org[1]['rv'].get('ak') == 'closure':
+                            cb = P.bodies.get(org[1]['rv'].get('fn'))
+                            for cp, ct in (cb.iter_calls() if cb is not None else []):
+                                if call_matches(ct, r'from_str_radix$') and len(ct['args']) > 1 and _const_of(cb, ct['args'][1]) is not None:
+                                    rad.add(_const_of(cb, ct['args'][1]))
+        table.setdefault(pre, set()).update(int(re.sub(r'_u32$', '', r)) for r in rad if re.match(r'^\d+(_u32)?$', r))
+    # default arm: conversions reachable from the entry when every test fails = not inside any Some region
+    zero_cmp = [pos for pos, t in b.iter_calls() if call_matches(t, r'PartialEq.*::eq$|::eq$') and any(_const_of(b, a) in ('"0"',) or any(org[0] == 'const' and str(const_val(org[1])) == '"0"' for org in (origins(b, a) if is_local_op(a) else [])) for a in t['args'])]
+    if not zero_cmp:
+        # `text == "0"` compares through references to constants: look for a promoted constant "0" among the deep origins
+        for pos, t in b.iter_calls():
+            if call_matches(t, r'PartialEq.*::eq$') and len(t['args']) == 2:
+                for a in t['args']:
+                    for org in origins(b, a) if is_local_op(a) else []:
+                        if org[0] not in ('param', 'const', 'place') and org[1].get('k') == 'assign' and org[1]['rv']['k'] == 'ref':
+                            for o2 in origins(b, {'l': org[1]['rv']['pl']['l'], 'p': []}):
+                                if o2[0] == 'const' and str(const_val(o2[1])) == '"0"':
+                                    zero_cmp.append(pos)
+    allrad = set()
+    for cp, ct in conv:
+        c = _const_of(b, ct['args'][1])
+        if c is not None:
+            allrad.add(c)
+        else:
+            want = source_locals(b, ct['args'][1])
+            for q, st in b.iter_stmts():
+                if st['k'] == 'assign' and st['dst']['l'] in want:
+                    for o in ([st['rv']['o']] if st['rv']['k'] == 'use' else st['rv'].get('ops', [])):
+                        if not is_local_op(o) and 'u32' in str(const_val(o)):
+                            allrad.add(str(const_val(o)))
+    allrad = {int(re.sub(r'_u32$', '', r)) for r in allrad if re.match(r'^\d+(_u32)?$', r)}
+    return {'table': table, 'tests': [(pos, pre) for pos, t, pre in tests], 'zero_cmp': zero_cmp, 'conv': conv, 'all_radix': allrad}
 
 
 def run(ctx):
@@ -94,20 +194,28 @@ def run(ctx):
             continue
         tabs[name] = t
         where = 'autosar-data/src/chardata.rs:%s' % fns[name].get('line', '')
-        got = {p: r for p, r, _ in t['chain']}
+        mb = P.get('CharacterData::' + name)
+        mt = mir_radix_table(P, mb)
+        tabs[name]['mir'] = {p_: sorted(r_) for p_, r_ in mt['table'].items()}
+        got = mt['table']
         for p, r in EXPECT:
-            C.check(got.get(p) == r, 'C20-SIB-radix', '%s|prefix %r -> radix %d' % (name, p, r), '%s interprets the prefix %r with radix %s (AUTOSAR: %d): a value in that lexical form is read as a different number' % (name, p, got.get(p), r), where,
-                    sample={'fn': name, 'prefix': p, 'radix': got.get(p)} if p == '0x' else None)
+            C.check(got.get(p) == {r}, 'C20-SIB-radix', '%s|prefix %r -> radix %d' % (name, p, r), '%s interprets the prefix %r with radix %s (AUTOSAR: %d): a value in that lexical form is read as a different number' % (name, p, sorted(got.get(p, [])), r), where,
+                    sample={'fn': name, 'prefix': p, 'radix': sorted(got.get(p, []))} if p == '0x' else None)
         extra = sorted(set(got) - {p for p, _ in EXPECT})
         C.check(not extra, 'C20-SIB-radix', name + '|no-other-prefix', '%s accepts additional radix prefixes %s' % (name, extra), where)
-        posn = {p: i for p, r, i in t['chain']}
-        ok_order = t['zero_pos'] is not None and '0' in posn and t['zero_pos'] < posn['0'] and all(posn.get(p, 99) < posn['0'] for p in ('0x', '0X', '0b', '0B'))
+        # order: every two-character prefix test dominates the test for the one-character prefix "0" (which would shadow it), and the
+        # literal "0" is compared (source order) before the octal test
+        tp = {pre: pos for pos, pre in mt['tests']}
+        src = [k for k, ln in sorted(set((k, ln) for k, ln in t['order']), key=lambda x: x[1])]
+        zero_first = 'zero' in src and 'prefix:0' in src and src.index('zero') < src.index('prefix:0')
+        ok_order = zero_first and '0' in tp and all(p in tp and mb.pos_dominates(tp[p], tp['0']) for p in ('0x', '0X', '0b', '0B'))
         C.check(ok_order, 'C20-SIB-radix', name + '|arm-order', 'in %s the one-character prefix "0" (octal) is tested before the literal "0" or before a two-character prefix: "0" would be read as an empty octal number / "0x10" as octal' % name, where,
-                sample={'fn': name, 'order': ['"0"' if i == t['zero_pos'] else None for i in range(0)] + [p for p, r, i in sorted(t['chain'], key=lambda x: x[2])]})
+                sample={'fn': name, 'order': src})
         if name == 'parse_integer':
-            C.check(t['default_radix'] == 10, 'C20-SIB-radix', name + '|default-decimal', 'the default arm of parse_integer does not parse with radix 10', where)
+            in_arms = set().union(*got.values()) if got else set()
+            C.check(10 in mt['all_radix'] and 10 not in in_arms, 'C20-SIB-radix', name + '|default-decimal', 'the default arm of parse_integer does not parse with radix 10', where)
         else:
-            C.check(t['default_parse'], 'C20-SIB-radix', name + '|default-float-parse', 'the default arm of parse_float does not use str::parse (decimal / exponent / INF / NaN forms)', where)
+            C.check(t['default_parse'] or bool(calls(mb, r'str>::parse$|<impl str>::parse$')), 'C20-SIB-radix', name + '|default-float-parse', 'the default arm of parse_float does not use str::parse (decimal / exponent / INF / NaN forms)', where)
     # the all-digit prefix "0" must not hand a text it recognised on to the decimal arm when the conversion fails (overflow):
     # either the conversion is in the arm's body (failure = None), or the arm's condition selects by the FORM of the text
     # (a digit-class test over the remainder) before converting
@@ -126,8 +234,8 @@ def run(ctx):
         C.check(ok_oct, 'C20-SIB-radix', name + '|octal-arm-does-not-fall-through-to-decimal', 'in %s a text with the octal prefix whose conversion fails (more than 64 bits) falls through to the decimal arm and is returned as a DIFFERENT number (0200..0 = 2^64 read as 2e21)' % name,
                 'autosar-data/src/chardata.rs:%s' % fn_.get('line', ''), sample={'fn': name, 'octal_arm': 'selected by form, conversion failure yields None'})
     if len(tabs) == 2:
-        a = [(p, r) for p, r, _ in tabs['parse_integer']['chain']]
-        b = [(p, r) for p, r, _ in tabs['parse_float']['chain']]
+        a = sorted(tabs['parse_integer'].get('mir', {}).items())
+        b = sorted(tabs['parse_float'].get('mir', {}).items())
         C.check(a == b, 'C20-SIB-radix', 'parse_integer-vs-parse_float|same-table', 'parse_integer and parse_float no longer use the same prefix table: %s vs %s' % (a, b))
     # the float variant converts the integer with `as f64` of a u64 (MIR: IntToFloat cast) - evidence
     # ---- bool ----
